@@ -160,7 +160,7 @@ def run_job(job, scratch):
         v["driver_cmd"] = job["driver"]
         v["event"] = json.loads(lines[v["line"] - 1])
         if isinstance(v["event"], dict):
-            for k in ("data", "rdata", "dump"):
+            for k in ("data", "rdata"):
                 if k in v["event"] and len(json.dumps(v["event"][k])) > 2000:
                     v["event"][k] = "...elided..."
         ctx = []
@@ -235,6 +235,12 @@ def seq_job(name, seed, profile, segs, steps, avoid, disk=20000, dumpeach=50, ex
                        "-avoid", avoid, "-disk", str(disk), "-dumpeach", str(dumpeach)] + (extra or [])}
 
 
+def crash_job(name, seed, profile, segs, steps, avoid, disk=2000, extra=None):
+    return {"name": name, "module": "NfsTrace.tla", "cfg": "NfsTrace.cfg", "driver_timeout": 3000,
+            "driver": ["crash", "-seed", str(seed), "-segs", str(segs), "-steps", str(steps), "-profile", profile,
+                       "-avoid", avoid, "-disk", str(disk)] + (extra or [])}
+
+
 def probe_job(prop, avoid):
     return {"name": "probes-" + prop, "module": "NfsTrace.tla", "cfg": "NfsTrace.cfg",
             "driver": ["probes", "-prop", prop]}
@@ -288,6 +294,22 @@ def plan(prop, tier, seed, known):
             jobs.append(seq_job("full%d" % i, seed * 100 + i, "full", 4 if q else 8, 150 if q else 300, av,
                                 dumpeach=25, extra=["-snapeach", "1", "-disks", "1600,1700,1900,2300"]))
         jobs.append(probe_job(prop, av))
+    elif prop == "C01":
+        n = 6 if q else 60
+        for i in range(n):
+            jobs.append(crash_job("crash%d" % i, seed * 100 + i, "crash", 1 if q else 2, 30 if q else 45, av, disk=2000,
+                                  extra=["-loss", "2" if q else "6", "-cont", "3", "-nested", "1" if q else "3"]))
+        for i in range(2 if q else 12):
+            jobs.append(crash_job("crashbig%d" % i, seed * 100 + 50 + i, "crashbig", 1, 12 if q else 20, av, disk=3400,
+                                  extra=["-loss", "1", "-cont", "2", "-nested", "1", "-stride", "3" if q else "1"]))
+        jobs.append(probe_job(prop, av))
+    elif prop == "C07":
+        n = 6 if q else 60
+        for i in range(n):
+            jobs.append(crash_job("unstable%d" % i, seed * 100 + i, "crashun", 1 if q else 2, 35 if q else 50, av, disk=2000,
+                                  extra=["-loss", "2" if q else "5", "-cont", "3", "-nested", "1"]))
+        jobs.append(seq_job("unstseq", seed, "data,mix", 4 if q else 16, 250, av))
+        jobs.append(probe_job(prop, av))
     else:
         raise Infra("no plan for " + prop)
     return jobs
@@ -304,7 +326,7 @@ def tags_of(rule):
 def write_replay(prop, v):
     os.makedirs(os.path.join(VERIF, "replays"), exist_ok=True)
     body = {"property": prop, "driver_cmd": v["driver_cmd"], "job": v["job"], "segment": v["seg"], "seed": v.get("seed"),
-            "driver": v.get("driver"), "line": v["line"], "rules": v["rules"], "want": v.get("want"), "event": v["event"], "context": v.get("context", [])}
+            "driver": v.get("driver"), "line": v["line"], "rules": v["rules"], "want": v.get("want"), "detail": v.get("detail"), "event": v["event"], "context": v.get("context", [])}
     h = hashlib.sha1(json.dumps(body, sort_keys=True).encode()).hexdigest()[:10]
     path = os.path.join(VERIF, "replays", "%s-%s.json" % (prop, h))
     json.dump(body, open(path, "w"), indent=1)
